@@ -319,9 +319,9 @@ class Machine:
         self.DISPATCHERS = set()
         for p, b_ in self.BODIES.items():
             m_ = b_['mir']
-            if not (m_['arg_count'] >= 1 and 'StateMachine' in m_['locals'][1]) or _is_handler_sig(p) or b_['kind'] == 'Closure':
+            if not (m_['arg_count'] >= 1 and 'StateMachine' in m_['locals'][1]) or b_['kind'] == 'Closure':
                 continue
-            hs = {callee_of(c) for _, c in F.calls(p) if callee_of(c) in self.BODIES and _is_handler_sig(callee_of(c))}
+            hs = {callee_of(c) for _, c in F.calls(p) if callee_of(c) in self.BODIES and callee_of(c) != p and _is_handler_sig(callee_of(c))}
             if len(hs) >= 3:
                 self.DISPATCHERS.add(p)
         # entry
@@ -856,7 +856,7 @@ class Machine:
                     seen.add(r)
                     res.append(r)
             return res
-        is_handler = (mir['arg_count'] == 1 and 'StateMachine' in mir['locals'][1] and mir['locals'][0].startswith('std::result::Result<bool'))
+        is_handler = (mir['arg_count'] == 1 and 'StateMachine' in mir['locals'][1] and mir['locals'][0].startswith('std::result::Result<bool')) and path not in self.DISPATCHERS
         if not is_handler or not top:
             return outs
         outs2 = []
